@@ -277,7 +277,6 @@ func (g *sgen) requestUnits(r reqGen, rd render) []unit {
 			}
 			block := g.enc.block(ep, r.trailers)
 			rd2 := rd
-			rd2.splits = 0 // trailers in one frame (continued trailers: see srv-state)
 			rd2.prio = false
 			return headerFrames(p, g.enc, r.sid, block, true, rd2)
 		})
@@ -407,7 +406,7 @@ func (g *sgen) randResp() respGen {
 		return r
 	}
 	for i := p.intn(3); i > 0; i-- {
-		r.hdr = append(r.hdr, kv{k: p.pick([]string{"x-r", "cache-control", "x-resp-long-name", "etag", "vary"}), v: p.pick(safeValues)})
+		r.hdr = append(r.hdr, kv{k: p.pick([]string{"x-r", "cache-control", "x-resp-long-name", "etag", "vary", "x_under_score", "X-Caret^Name", "x-tilde~1"}), v: p.pick(safeValues)})
 	}
 	switch p.intn(6) {
 	case 0:
@@ -1047,7 +1046,11 @@ func genSrvSettings(p *prng, thorough bool, w *bufio.Writer) {
 			g.settings(pairs...)
 			sid := g.sid()
 			g.simpleReq(sid, "GET", nil)
-			hdr := []kv{{k: "x-big", v: strings.Repeat("v", []int{1, 100, 5000, 17000}[p.intn(4)])}, {k: "x-r", v: "1"}}
+			big := p.bytes([]int{1, 100, 5000, 17000}[p.intn(4)])
+			for i := range big {
+				big[i] = 33 + big[i]%90 // incompressible enough that 17000 octets exceed a 16384 frame
+			}
+			hdr := []kv{{k: "x-big", v: string(big)}, {k: "x-r", v: "1"}}
 			g.done(sid, respGen{status: 200, hdr: hdr, body: fmt.Sprintf("pat:%d", []int{1, 20000, 70000}[p.intn(3)])})
 			g.windowUpdate(0, 1<<20)
 			g.windowUpdate(sid, 1<<20)
@@ -1055,7 +1058,22 @@ func genSrvSettings(p *prng, thorough bool, w *bufio.Writer) {
 				g.settingsAck()
 			}
 		}
+		// the server advertises MAX_FRAME_SIZE 16384 and must hold the peer to it,
+		// whatever the peer has announced for itself
+		if c%3 == 0 {
+			if p.chance(1, 2) {
+				g.settings(5, 1<<20)
+			}
+			sid := g.sid()
+			g.frame(frameBytes(1, 4, sid, g.hdrBlock(false)))
+			g.frame(frameBytes(0, 0, sid, patBytes(sid, 0, 16385+p.intn(30000))))
+			g.ping(1)
+		}
 	}
+	// before any SETTINGS from the peer
+	g.newConn(4, 0, 0)
+	g.frame(frameBytes(6, 0, 0, make([]byte, 20000)))
+	g.ping(1)
 	g.line("srv %s end", g.id)
 }
 
